@@ -10,7 +10,51 @@ SCHED_NOTE = ("Trusted: Lean kernel + propext/Quot.sound/Classical.choice; the h
               "correspondence run of this check (random histories, integer time units so that float rounding cannot move a tick); "
               "Event resolution is outside this model (C03); floats of the implementation are compared, not proved.")
 
+PAT_NOTE = ("Trusted: Lean kernel + standard axioms; the pattern model (lean/IsobarV/Pat: generic pattern tree, one step function per class "
+            "mirroring its __next__, CPython operators in Num.lean) is tied to isobar/pattern/*.py by the differential correspondence "
+            "(random nested expressions built as real objects and as model terms from one AST); classes without a model are listed as "
+            "unmodelled in the evidence; floats are exact rationals in the model (dyadic inputs or tolerance 1e-9 in the comparison).")
+
 CHECKS = {
+    "C18": dict(
+        text="Theorems over Rat for every start, target, duration, envelope fraction in [0,1], ticks-per-beat, range and history: envelope "
+             "non-negative with sum = ticks, duration ticks = ceil, a move never raises and arrives exactly after max(1, ceil(d/tick)) "
+             "ticks (also concurrent moves), monotone toward the target then stays put, value clipped / wrapped into the range, bound "
+             "sinks receive every value; LFO (waveform as parameter with |w|<=1, period 1) stays in range, is periodic, reads as pattern.",
+        design="DESIGN.md §3 C18, notes/NOTES-C18.md",
+        note="Trusted: Lean kernel + standard axioms; model lean/IsobarV/Auto/Model.lean over exact rationals tied to "
+             "isobar/timelines/{automation,lfo}.py by the correspondence (float comparison with relative tolerance 1e-9, exact tick "
+             "counts); numpy.linspace and sin are modelled/parametric; bounce_to, blocking moves, fold boundaries not modelled.",
+        technique="Lean 4 theorems over Rat (sums, induction over ticks/histories) + differential correspondence"),
+    "C04": dict(
+        text="General theorem: for pattern trees of ANY shape and depth built from reset-correct classes, reset() after any number of "
+             "next() calls (none, some, past exhaustion), repeated resets, and all() give back exactly the initial pattern, hence "
+             "the sequence of a new identical instance, nested patterns included. Reset-correctness is proved class by class "
+             "(parametric in the sub-pattern semantics); stochastic classes rewind their draw tape.",
+        design="DESIGN.md §3 C04",
+        note=PAT_NOTE + " The evidence lists which classes have a proved reset lemma; the others are covered by the consume-k/reset/compare-with-fresh oracle on the real objects only.",
+        technique="Lean 4 induction over fuel and tree (open recursion) + per-class lemmas + reset-vs-fresh oracle + correspondence"),
+    "C09": dict(
+        text="General theorem: in pattern trees of sticky classes, once next() raised StopIteration no later next() ever yields a value "
+             "(any depth, any number of later calls); nextn(n) = the values of the next n calls before the end, all(max) the same then "
+             "rewinds, len = their number; a copy continues identically. Stickiness proved class by class.",
+        design="DESIGN.md §3 C09",
+        note=PAT_NOTE + " Copy independence is structural in a pure model; it is decided by the interleaving oracle on the real objects. Array lookup with a cycling index over exhausted items is a selector and deliberately outside the sticky set.",
+        technique="Lean 4 dead-state invariant by induction + per-class lemmas + sticky/helpers/copy oracles + correspondence"),
+    "C10": dict(
+        text="Per-class reference theorems (closed forms / list functions of the inputs' outputs) parametric in the sub-pattern semantics, so "
+             "they hold on nested combinations; model diffed against the real classes on random arguments in the documented domain.",
+        design="DESIGN.md §3 C10",
+        note=PAT_NOTE + " Which classes carry a reference theorem is listed in the evidence (theorems); the others are covered by the correspondence and, where present, the list-based reference oracle only.",
+        technique="Lean 4 per-class reference theorems + list-based reference oracle + differential correspondence"),
+    "C12": dict(
+        text="Theorems: a reference is transparent and re-targeting takes effect at the very next step; a constant is never advanced; "
+             "operands / index parameters are consumed exactly once per step in order; nested pattern items are resolved per visit. "
+             "The (class, parameter) registry is derived from the source by an AST pass on every run; scalar vs PConstant vs "
+             "PRef(PConstant) equivalence is decided on the real objects; varying parameter streams against the model.",
+        design="DESIGN.md §3 C12",
+        note=PAT_NOTE + " In the model a scalar and PConstant(scalar) are the same node, so that equivalence is an implementation-side oracle; unmodelled registry pairs are listed in the evidence.",
+        technique="Lean 4 per-class consumption theorems + AST-derived registry + variant-equivalence oracle + correspondence"),
     "C16": dict(
         text="Theorems for every message list / score of the stated class (no bound on lengths, deltas, chord sizes): the reader places "
              "each note at the sum of ALL preceding delta times whatever is interleaved, velocity-0 note-on is a note-off, lengths are "
